@@ -17,7 +17,7 @@
    Premises and definedness side conditions: as in Proofs/C01for.v, per loop. *)
 From Coq Require Import Lia List Bool ZArith.
 From BS Require Import Model.Base Model.Num Model.Arith Model.ExprParser Model.Script Model.Interp
-                       Proofs.InterpEq Proofs.Fuel Proofs.C08 Proofs.C01 Proofs.C01b Proofs.Blind Proofs.C01for.
+                       Proofs.BaseFacts Proofs.InterpEq Proofs.Fuel Proofs.C08 Proofs.C01 Proofs.C01b Proofs.Blind Proofs.C01for.
 Import ListNotations.
 
 Inductive fstmt :=
@@ -505,4 +505,195 @@ Qed.
 Theorem gsim : forall f st o st', GExec f st o st' -> PG f st o st'.
 Proof. exact (proj1 gsim_both). Qed.
 
+(* the whole scope: run from statement 0 *)
+Theorem gscope_sim : forall f loc w o loc' w', GExec f (loc, w) o (loc', w') ->
+  gwf false f = true -> gguard f = true ->
+  forall n wm, NoDup (labels (fst (gcompile None n f))) -> weq w wm ->
+  exists out wm', scope_result o = Some out /\ weq w' wm' /\ Run (fst (gcompile None n f)) 0 loc wm (out, loc', wm').
+Proof.
+  intros f loc w o loc' w' H Hwf Hg n wm HN Hw.
+  destruct (gsim _ _ _ _ H (fst (gcompile None n f)) None None n 0 wm HN I Hwf Hg (code_at_whole _) Hw) as (wm' & Hw' & Hp).
+  cbn [fst snd] in *. destruct o; cbn [C01.post] in Hp.
+  - exists (OVal VNull), wm'. split; [reflexivity|split; [exact Hw'|]]. apply Hp.
+    apply (run_end cfg lib url_rel lint_lines um). apply nth_error_None. cbn. lia.
+  - contradiction.
+  - contradiction.
+  - exists o, wm'. split; [reflexivity|split; [exact Hw'|exact Hp]].
+Qed.
+
+(* ---------------------------------------------------------------- labels of the lowered code are defined once *)
+Section Labels.
+Hypothesis lab_inj : forall k n k' n', lab k n = lab k' n' -> k = k' /\ n = n'.
+Hypothesis labc_inj : forall i j, labc i = labc j -> i = j.
+Hypothesis labc_fresh : forall k i j, lab k i <> labc j.
+
+Definition in_range2 (n n' : nat) (l : str) : Prop :=
+  (exists k i, l = lab k i /\ n <= i < n') \/ (exists i, l = labc i /\ n <= i < n').
+
+Lemma in_range2_lab k i n n' : n <= i < n' -> in_range2 n n' (lab k i).
+Proof. intros H. left. exists k, i. split; [reflexivity|exact H]. Qed.
+Lemma in_range2_labc i n n' : n <= i < n' -> in_range2 n n' (labc i).
+Proof. intros H. right. exists i. split; [reflexivity|exact H]. Qed.
+Lemma in_range2_mono a b a' b' l : in_range2 a b l -> a' <= a -> b <= b' -> in_range2 a' b' l.
+Proof.
+  intros [(k & i & -> & Hi)|(i & -> & Hi)] H1 H2; [left; exists k, i|right; exists i]; (split; [reflexivity|lia]).
+Qed.
+Lemma range2_disjoint a b c l : in_range2 a b l -> in_range2 b c l -> False.
+Proof.
+  intros [(k & i & -> & Hi)|(i & -> & Hi)] [(k' & i' & E & Hi')|(i' & E & Hi')].
+  - apply lab_inj in E. lia.
+  - exact (labc_fresh _ _ _ E).
+  - symmetry in E. exact (labc_fresh _ _ _ E).
+  - apply labc_inj in E. lia.
+Qed.
+
+Lemma glabels : forall f ctx n, n <= snd (gcompile ctx n f) /\
+  Forall (in_range2 n (snd (gcompile ctx n f))) (labels (fst (gcompile ctx n f))) /\ NoDup (labels (fst (gcompile ctx n f))).
+Proof.
+  induction f as [s|a IHa b IHb|vals len idx x e body IH]; intros ctx n; cbn [gcompile].
+  - destruct (compile_labels lab lab_inj s) as [HC _]. destruct (HC ctx n) as (H1 & H2 & H3).
+    split; [exact H1|split; [|exact H3]]. eapply Forall_impl; [|exact H2]. intros l (k & i & -> & Hi). apply in_range2_lab. exact Hi.
+  - destruct (IHa ctx n) as (Ha1 & Ha2 & Ha3). destruct (gcompile ctx n a) as [ca n1]. cbn [fst snd] in *.
+    destruct (IHb ctx n1) as (Hb1 & Hb2 & Hb3). destruct (gcompile ctx n1 b) as [cb n2]. cbn [fst snd] in *.
+    rewrite labels_app. rewrite Forall_forall in Ha2, Hb2. repeat split; [lia| |].
+    + apply Forall_app. split; apply Forall_forall; intros l Hl;
+        [eapply in_range2_mono; [apply Ha2; exact Hl|lia|lia]|eapply in_range2_mono; [apply Hb2; exact Hl|lia|lia]].
+    + apply NoDup_app_intro; [exact Ha3|exact Hb3|]. intros y H1 H2. exact (range2_disjoint _ _ _ _ (Ha2 _ H1) (Hb2 _ H2)).
+  - destruct (IH (Some (lab KDone n, labc n)) (S n)) as (Hle & Hr & Hnd).
+    destruct (gcompile (Some (lab KDone n, labc n)) (S n) body) as [cb n1]. cbn [fst snd] in *.
+    unfold for_code, labels. rewrite !flat_map_app. cbn [flat_map app].
+    change (flat_map (fun i => match i with SLabel l => [l] | _ => [] end) cb) with (labels cb).
+    rewrite Forall_forall in Hr.
+    assert (Hcb : forall k, In (lab k n) (labels cb) -> False).
+    { intros k Hin. destruct (Hr _ Hin) as [(k' & i & E & Hi)|(i & E & Hi)]; [apply lab_inj in E; lia|exact (labc_fresh _ _ _ E)]. }
+    assert (Hcc : In (labc n) (labels cb) -> False).
+    { intros Hin. destruct (Hr _ Hin) as [(k' & i & E & Hi)|(i & E & Hi)]; [symmetry in E; exact (labc_fresh _ _ _ E)|apply labc_inj in E; lia]. }
+    repeat split; [lia| |].
+    + constructor; [apply in_range2_lab; lia|]. apply Forall_app. split.
+      * apply Forall_forall. intros l Hl. eapply in_range2_mono; [apply Hr; exact Hl|lia|lia].
+      * apply Forall_app. split.
+        -- destruct (ghas_cont body); cbn [flat_map app]; [constructor; [apply in_range2_labc; lia|constructor]|constructor].
+        -- constructor; [apply in_range2_lab; lia|constructor].
+    + constructor.
+      * intros Hin. apply in_app_or in Hin. destruct Hin as [Hin|Hin]; [exact (Hcb _ Hin)|].
+        apply in_app_or in Hin. destruct Hin as [Hin|[E|[]]].
+        -- destruct (ghas_cont body); cbn in Hin; [destruct Hin as [E|[]]; symmetry in E; exact (labc_fresh _ _ _ E)|contradiction].
+        -- apply lab_inj in E. destruct E as [E _]. discriminate.
+      * apply NoDup_app_intro; [exact Hnd| |].
+        -- destruct (ghas_cont body); cbn [flat_map app]; repeat constructor; cbn; try tauto.
+           intros [E|[]]. exact (labc_fresh _ _ _ E).
+        -- intros y H1 H2. apply in_app_or in H2. destruct H2 as [H2|[E|[]]].
+           ++ destruct (ghas_cont body); cbn in H2; [destruct H2 as [E|[]]; subst y; exact (Hcc H1)|contradiction].
+           ++ subst y. exact (Hcb _ H1).
+Qed.
+
+Corollary gcompile_NoDup ctx n f : NoDup (labels (fst (gcompile ctx n f))).
+Proof. apply glabels. Qed.
+End Labels.
+
+(* ---------------------------------------------------------------- an executable interpreter for the structured reading *)
+Fixpoint gexec (fuel : nat) (f : fstmt) (st : sstate) {struct fuel} : option (sout * sstate) :=
+  match fuel with
+  | O => None
+  | S k =>
+    match f with
+    | FS s => sexec k s st
+    | FSeq a b => match gexec k a st with Some (SNormal, st1) => gexec k b st1 | r => r end
+    | FFor vals len idx x e body =>
+      let '(loc, w) := st in
+      match eval k e loc false um w with
+      | (OFuel, _) => None
+      | (OVal (VArr l), w1) =>
+        let st1 := assign' vals (VArr l) (loc, w1) in
+        if is_libb ARRLEN st1 then
+          match nth_error (w_arrs w1) l with
+          | Some [] => Some (SNormal, assign' len (int_v 0) st1)
+          | Some elems => gloop k vals len idx x body l (length elems) 0 (assign' idx (int_v 0) (assign' len (int_v (length elems)) st1))
+          | None => None
+          end
+        else None
+      | (OVal _, _) => None                  (* a non-array: no rule in GExec *)
+      | (o, w1) => Some (SStop o, (loc, w1))
+      end
+    end
+  end
+with gloop (fuel : nat) (vals len idx x : str) (body : fstmt) (l m i : nat) (st : sstate) {struct fuel} : option (sout * sstate) :=
+  match fuel with
+  | O => None
+  | S k =>
+    if is_libb ARRGET st then
+      match nth_error (w_arrs (snd st)) l with
+      | Some elems =>
+        match nth_error elems i with
+        | Some v =>
+          match gexec k body (assign' x v st) with
+          | Some (SStop out, st_b) => Some (SStop out, st_b)
+          | Some (SBreak, st_b) => Some (SNormal, st_b)
+          | Some (_, st_b) =>
+            if inv3b vals len idx l m i st_b then
+              if S i <? m then gloop k vals len idx x body l m (S i) (assign' idx (int_v (S i)) st_b)
+              else Some (SNormal, assign' idx (int_v (S i)) st_b)
+            else None
+          | None => None
+          end
+        | None => None
+        end
+      | None => None
+      end
+    else None
+  end.
+
+Theorem gexec_sound_both : forall fuel,
+  (forall f st o st', gexec fuel f st = Some (o, st') -> GExec f st o st') /\
+  (forall vals len idx x body l m i st o st', gloop fuel vals len idx x body l m i st = Some (o, st') -> GLoop vals len idx x body l m i st o st').
+Proof.
+  induction fuel as [|k [IHe IHl]]; [split; intros; discriminate|]. split.
+  - intros f st o st' H. cbn [gexec] in H. destruct f as [s|a b|vals len idx x e body].
+    + apply G_S. eapply (sexec_sound cfg lib url_rel lint_lines um). exact H.
+    + destruct (gexec k a st) as [[oa st1]|] eqn:Ea; [|discriminate].
+      destruct oa; try (injection H as <- <-; apply G_SeqA; [apply IHe; exact Ea|discriminate]).
+      eapply G_SeqN; [apply IHe; exact Ea|apply IHe; exact H].
+    + destruct st as [loc w]. destruct (eval k e loc false um w) as [oe w1] eqn:Ee.
+      assert (HE : oe <> OFuel -> Ev e loc w oe w1) by (intros Hn; exists k; split; [exact Ee|exact Hn]).
+      destruct oe as [v| | | | |]; try discriminate;
+        try (injection H as <- <-; apply G_ForStop; [apply HE; discriminate|reflexivity]).
+      destruct v; try discriminate.
+      destruct (is_libb ARRLEN (assign' vals (VArr l) (loc, w1))) eqn:Efn; [|discriminate]. apply is_libb_sound in Efn.
+      destruct (nth_error (w_arrs w1) l) as [elems|] eqn:Ea; [|discriminate].
+      destruct elems as [|e0 et].
+      * injection H as <- <-. apply G_ForEmpty; [apply HE; discriminate|exact Ea|exact Efn].
+      * apply IHl in H. eapply G_ForLoop; [apply HE; discriminate|exact Ea|discriminate|exact Efn|exact H].
+  - intros vals len idx x body l m i st o st' H. cbn [gloop] in H.
+    destruct (is_libb ARRGET st) eqn:Efn; [|discriminate]. apply is_libb_sound in Efn.
+    destruct (nth_error (w_arrs (snd st)) l) as [elems|] eqn:Ea; [|discriminate].
+    destruct (nth_error elems i) as [v|] eqn:Ev'; [|discriminate].
+    destruct (gexec k body (assign' x v st)) as [[ob st_b]|] eqn:Eb; [|discriminate].
+    apply IHe in Eb.
+    assert (Hit : IterPre l i st v) by (exists elems; auto).
+    destruct ob.
+    + destruct (inv3b vals len idx l m i st_b) eqn:EI; [|discriminate]. apply inv3b_sound in EI.
+      destruct (S i <? m) eqn:El.
+      * apply Nat.ltb_lt in El. eapply GL_next; [exact Hit|exact Eb|left; reflexivity|exact EI|exact El|apply IHl; exact H].
+      * apply Nat.ltb_ge in El. injection H as <- <-. eapply GL_last; [exact Hit|exact Eb|left; reflexivity|exact EI|exact El].
+    + injection H as <- <-. eapply GL_break; [exact Hit|exact Eb].
+    + destruct (inv3b vals len idx l m i st_b) eqn:EI; [|discriminate]. apply inv3b_sound in EI.
+      destruct (S i <? m) eqn:El.
+      * apply Nat.ltb_lt in El. eapply GL_next; [exact Hit|exact Eb|right; reflexivity|exact EI|exact El|apply IHl; exact H].
+      * apply Nat.ltb_ge in El. injection H as <- <-. eapply GL_last; [exact Hit|exact Eb|right; reflexivity|exact EI|exact El].
+    + injection H as <- <-. eapply GL_stop; [exact Hit|exact Eb].
+Qed.
+
+Theorem gexec_sound : forall fuel f st o st', gexec fuel f st = Some (o, st') -> GExec f st o st'.
+Proof. intros fuel. exact (proj1 (gexec_sound_both fuel)). Qed.
+
 End ForN.
+
+(* labels defined once, as a decidable check (for concrete code) *)
+Fixpoint nodup_strb (l : list str) : bool :=
+  match l with [] => true | a :: t => negb (str_mem a t) && nodup_strb t end.
+Lemma nodup_strb_sound l : nodup_strb l = true -> NoDup l.
+Proof.
+  induction l as [|a t IH]; cbn [nodup_strb]; intros H; [constructor|].
+  apply andb_prop in H. destruct H as [H1 H2]. constructor; [|apply IH; exact H2].
+  intros Hin. apply BaseFacts.str_mem_In in Hin. rewrite Hin in H1. discriminate.
+Qed.
